@@ -37,6 +37,18 @@ def PlainNode (content : Text) (v : Node) : Prop :=
   ∃ pre body post, content = pre ++ body ++ post ∧ byteLen pre = v.sb ∧ v.eb = byteLen pre + byteLen body ∧
     (∀ c ∈ body, c ≠ '\n') ∧ lineOf pre = v.info.sr ∧ colOf pre 0 = v.info.sc
 
+/-- `PackageInfo::utf16_span`: column and width of the version range in UTF-16 code units, computed from the text of the
+    line before the range and the text of the range; `none` when the offsets do not fit the document -/
+def utf16Span (content : Text) (column so eo : Nat) : Option (Nat × Nat) :=
+  if column ≤ so then
+    match slice content (so - column) so with
+    | none => none
+    | some before =>
+      match slice content so eo with
+      | none => none
+      | some text => if before.any (· == '\n') then none else some (utf16Length before, utf16Length text)
+  else none
+
 /-- the LSP range of a diagnostic: same line, `column .. column + (end − start)` — in BYTES -/
 def diagRange (p : PkgInfo) : Nat × Nat × Nat := (p.line, p.column, p.column + p.endOffset - p.startOffset)
 
